@@ -38,7 +38,7 @@ func init() {
 		e.RRoleFilter()
 		e.RResolvePath()
 		e.RResolverClauses()
-		e.RErr(e.pkgs(load.PkgDecorator, load.PkgGoast, load.PkgGotypes), 105)
+		e.RErr(e.pkgs(load.PkgDecorator, load.PkgGoast, load.PkgGotypes), 85)
 		e.RAssert()
 	})
 	_ = strings.TrimSpace
